@@ -49,7 +49,9 @@ RULE = ("case = T in 2..16 workloads (thread i runs w[i mod len(w)], so some cas
         "until the thread ends), thread-local set/get/rem on "
         "current(Thread) with key names shared by all threads, lock sections (lock/unlock, trylock, with-block on 1..3 "
         "mutexes in ascending order, non-atomic counter increment with a generated spin between read and write, "
-        "in-section flag), join programs (in main and inside workloads: worker writes bytes, Array pushes, a String, "
+        "in-section flag; in two of three sections the owner also calls trylock - directly or through a helper - on "
+        "mutexes it holds (must report busy) and on one it does not hold (a section of its own if it succeeds; must "
+        "succeed when run alone)), join programs (in main and inside workloads: worker writes bytes, Array pushes, a String, "
         "after generated delays), plus a per-workload yield schedule (sched_yield / spin / short sleep before chosen ops), "
         "start barrier on/off, main thread taking part or not, Thread objects collected or raw, ASan or gcc -O0 build; "
         "in about a third of the cases 1..3 workloads run in Thread objects cloned from a running worker (by the worker "
@@ -225,7 +227,14 @@ def decode_op(name, a, b, xb, nmutex, maxchurn):
         mask = 1 + a % (2 ** nmutex - 1)
         ms = [m for m in range(nmutex) if mask >> m & 1]
         modes = [(a // 8 // (3 ** i)) % 3 for i in range(len(ms))]
-        return "lk %d %d %s" % (spin_arg(b), len(ms), " ".join("%d %d" % (m, md) for m, md in zip(ms, modes)))
+        base = "lk %d %d %s" % (spin_arg(b), len(ms), " ".join("%d %d" % (m, md) for m, md in zip(ms, modes)))
+        if b % 3 == 0:
+            return base
+        # same-thread re-entry: trylock (directly / through a helper) on held mutexes (mask) and on one other mutex;
+        # never a second blocking lock() or nested with() by the owner - that deadlocks by definition
+        remask = 1 + (b // 3) % (2 ** len(ms) - 1)
+        other = (b // 5) % (nmutex + 1) - 1
+        return base + " %d %d %d" % (remask, (b // 11) % 2, other)
     if name == "jw":
         dk = a % 3
         dc = b % 4 if dk == 0 else ((b * 13) % 3000 if dk == 1 else b % 150)
@@ -427,6 +436,9 @@ def _judge(case, obs):
             f = dict(x.split("=") for x in o.split()[2:])
             if f["counter"] != f["expect"] and not fail:
                 fail = "mutex %s: shared counter is %s after %s guarded increments" % (o.split()[1], f["counter"], f["expect"])
+            if f.get("reentered", "0") != "0" and not fail:
+                fail = ("mutex %s: trylock by the thread that already holds it reported success %s time(s): two critical "
+                        "sections on one Mutex open at once" % (o.split()[1], f["reentered"]))
             if f["flagseen"] != "0" and not fail:
                 fail = "mutex %s: in-section flag seen set on entry %s time(s)" % (o.split()[1], f["flagseen"])
             if int(f["expect"]):
@@ -504,7 +516,8 @@ def _stress(kind, T, cfg):
     if kind == "lock":
         ops = []
         for r in range(12):
-            ops += ["lk %d 1 0 %d" % (2 * (300 + 170 * r) + 1, r % 3), "lk %d 2 0 %d 1 %d" % ((r % 3) * 2, (r + 1) % 3, r % 3),
+            ops += ["lk %d 1 0 %d %d %d %d" % (2 * (300 + 170 * r) + 1, r % 3, 1, r % 2, (r % 3) if r % 3 else -1),
+                    "lk %d 2 0 %d 1 %d %d %d %d" % ((r % 3) * 2, (r + 1) % 3, r % 3, 1 + r % 3, (r + 1) % 2, 2 if r % 2 else -1),
                     "lk 1 1 1 %d" % ((r + 2) % 3)]
         w = [{"ops": ops, "ys": [[3, 0, 1], [9, 1, 500], [20, 0, 2]]}]
     elif kind == "exc":
